@@ -186,6 +186,7 @@ impl<'a> Gen<'a> {
 
     fn can_error(&self, e: &Expr, sc: &Scope) -> bool {
         match e {
+            Expr::CmpL(..) => self.can_error(&e.mirrored().expect("mirrored"), sc),
             Expr::Cmp(v, op, t) => {
                 let unb = |x: &str| !sc.get(x).map(|i| i.certain).unwrap_or(false);
                 let nonnum = |x: &str| sc.get(x).map(|i| i.kind != Kind::Num).unwrap_or(true);
@@ -213,6 +214,7 @@ impl<'a> Gen<'a> {
     /// raises a type error where lexical evaluation substitutes 0
     fn ordering_on_non_numeric(&self, e: &Expr, sc: &Scope) -> bool {
         match e {
+            Expr::CmpL(..) => self.ordering_on_non_numeric(&e.mirrored().expect("mirrored"), sc),
             Expr::Cmp(v, op, t) => {
                 if matches!(*op, "=" | "!=") {
                     return false;
@@ -290,6 +292,12 @@ impl<'a> Gen<'a> {
             } else {
                 T::Const(self.const_of(info.kind))
             };
+            if let T::Const(c) = &rhs {
+                if self.r.chance(1, 5) {
+                    // the constant (IRI, word or number) on the left
+                    return Some(Expr::CmpL(c.clone(), op, v));
+                }
+            }
             return Some(Expr::Cmp(v, op, rhs));
         }
         // ordering comparison on an arbitrary variable (edge unless numeric)
@@ -317,7 +325,7 @@ impl<'a> Gen<'a> {
             // a random Boolean tree: negations as operands of && / ||, mixed nesting
             10 | 11 | 12 => {
                 let t = self.gen_bool(sc, 3)?;
-                if matches!(t, Expr::Cmp(..) | Expr::ArithCmp(..)) { Expr::And(Box::new(Expr::Not(Box::new(a))), Box::new(t)) } else { t }
+                if matches!(t, Expr::Cmp(..) | Expr::CmpL(..) | Expr::ArithCmp(..)) { Expr::And(Box::new(Expr::Not(Box::new(a))), Box::new(t)) } else { t }
             }
             0 | 1 => {
                 let b = self.gen_atom(sc)?;
